@@ -388,3 +388,15 @@ def fold_inline_calls(v, ps, names):
             new.append(r)
         out = new
     return out
+
+
+def visits(lp, lo, hi):
+    """the counted loop visits exactly the integers of [lo, hi), once each (unit stride, ascending `<` / `<=` or descending)"""
+    if "var" not in lp:
+        return False
+    st = sym.const_value(lp["step"])
+    if st == 1 and lp["cmp"] in ("<", "<="):
+        return lp["lo"] == lo and (lp["hi"] if lp["cmp"] == "<" else sym.add(lp["hi"], I(1))) == hi
+    if st == -1 and lp["cmp"] in (">", ">="):
+        return (sym.add(lp["hi"], I(1)) if lp["cmp"] == ">" else lp["hi"]) == lo and sym.add(lp["lo"], I(1)) == hi
+    return False
